@@ -175,6 +175,15 @@ func c05Pair(r *gen.Rand, L int) ([]world.File, []world.File) {
 	if r.Chance(1, 10) {
 		a = nil
 	}
+	if r.Chance(1, 5) { // a file becomes a directory, or a directory becomes a file
+		if r.Bool() {
+			a = append(a, world.File{Name: "shape/conf", Data: r.Bytes(r.Intn(L + 1))})
+			b = append(b, world.File{Name: "shape/conf/main.yaml", Data: r.Bytes(r.Intn(L + 1))})
+		} else {
+			a = append(a, world.File{Name: "shape/dir/inner.txt", Data: r.Bytes(r.Intn(L + 1))}, world.File{Name: "shape/dir/deeper/x", Data: r.Bytes(3)})
+			b = append(b, world.File{Name: "shape/dir", Data: r.Bytes(r.Intn(L + 1))})
+		}
+	}
 	return a, b
 }
 
@@ -184,7 +193,7 @@ func init() {
 		c.CaseTy = "dcase"
 		c.Report = "report"
 		c.PerFile = 10
-		c.Rule = "pairs of trees with controlled overlap (identical, disjoint, same path with same / different content, renamed files, additions, removals, empty source or target); core.Diff on a downloaded copy against the target bundle, core.Update of that copy, compared file by file (bundle metadata files included, bytes through independently computed keys) with a fresh download of the target; non-trivial = diff with at least one entry, distinct by diff"
+		c.Rule = "pairs of trees with controlled overlap (identical, disjoint, same path with same / different content, renamed files, additions, removals, a file that becomes a directory and a directory that becomes a file, empty source or target); core.Diff on a downloaded copy against the target bundle, core.Update of that copy, compared file by file (bundle metadata files included, bytes through independently computed keys) with a fresh download of the target; non-trivial = diff with at least one entry, distinct by diff"
 		py := newPyRef()
 		defer py.in.Close()
 		emit := func(cs *c05Case) {
